@@ -11,7 +11,7 @@ open Beetswap.Client (Out StoreRes)
 def wlist (s : State) (k : Nat) : List Nat := (s.waiting[k]?).getD []
 
 /-- no waiter entry holds the empty list -/
-def NoEmpty (s : State) : Prop := ∀ k, s.waiting[k]? ≠ some []
+def NoEmpty (s : State) : Prop := ∀ k : Nat, s.waiting[k]? ≠ some []
 
 theorem waits_iff (s : State) (p k : Nat) : Waits s p k ↔ p ∈ wlist s k := by
   unfold Waits wlist
@@ -38,7 +38,8 @@ theorem get_of_wlist {s : State} (hne : NoEmpty s) (k : Nat) :
 /-- `Inv` in terms of `wlist`. -/
 theorem inv_iff (s : State) :
     Inv s ↔ (∀ p k, p ∈ wlist s k ↔ Wants s p k) ∧ (∀ k, (wlist s k).Nodup) ∧ NoEmpty s ∧
-      (∀ p set, s.wl[p]? = some set → set.size ≤ maxWantlistEntries) ∧ s.evq = [] := by
+      (∀ (p : Nat) (set : KSet), s.wl[p]? = some set → set.size ≤ maxWantlistEntries) ∧
+      s.evq = [] := by
   constructor
   · intro h
     refine ⟨?_, ?_, ?_, h.cap, h.evq_nil⟩
@@ -86,7 +87,7 @@ theorem inv_connect (s : State) (p : Nat) (h : Inv s) : Inv (connect s p) := by
       unfold Wants
       simp only [kmap_get_insert]
       by_cases hq : q = p
-      · subst hq; simp [hnone, kset_not_mem_empty]
+      · subst hq; simp [hnone]
       · simp [hq]
     · intro q set
       simp only [kmap_get_insert]
@@ -116,7 +117,9 @@ theorem wlist_disconnected (s : State) (p k : Nat) :
     wlist (disconnected s p) k = (wlist s k).filter (· != p) := by
   conv => lhs; unfold wlist
   rw [disconnected_waiting_get]
-  split <;> simp_all
+  split
+  · rename_i h; rw [h]; rfl
+  · rfl
 
 theorem noEmpty_disconnected (s : State) (p : Nat) : NoEmpty (disconnected s p) := by
   intro k
@@ -149,7 +152,7 @@ theorem inv_disconnected (s : State) (p : Nat) (h : Inv s) : Inv (disconnected s
 def addWaiter (p : Nat) (s : State) (k : Nat) : State :=
   { s with waiting := s.waiting.insert k ((s.waiting[k]?.getD []) ++ [p]) }
 
-theorem wlist_cancelRequest (s : State) (p k k' : Nat) (hne : NoEmpty s) :
+theorem wlist_cancelRequest (s : State) (p k k' : Nat) :
     wlist (cancelRequest s p k) k' = if k' = k then (wlist s k).erase p else wlist s k' := by
   unfold cancelRequest
   cases hk : s.waiting[k]? with
@@ -199,7 +202,8 @@ theorem cancelRequest_fields (s : State) (p k : Nat) :
   unfold cancelRequest
   split
   · simp
-  · split <;> simp
+  · dsimp only
+    split <;> simp
 
 theorem foldl_cancel_fields (l : List Nat) (s : State) (p : Nat) :
     (l.foldl (fun s k => cancelRequest s p k) s).wl = s.wl ∧
@@ -228,7 +232,7 @@ theorem foldl_cancel_spec (l : List Nat) (s : State) (p : Nat) (hne : NoEmpty s)
     obtain ⟨h1, h2⟩ := ih (cancelRequest s p a) (noEmpty_cancelRequest s p a hne) hl.2
     refine ⟨h1, ?_⟩
     intro k
-    rw [h2, wlist_cancelRequest _ _ _ _ hne]
+    rw [h2, wlist_cancelRequest]
     by_cases hka : k = a
     · subst hka; simp [hl.1]
     · simp [hka]
@@ -352,6 +356,13 @@ theorem wlist_incoming (s : State) (p : Nat) (full : Bool) (es : List Entry) (cu
   rw [incoming_eq s p full es cur hc]
   rfl
 
+theorem incoming_waiting (s : State) (p : Nat) (full : Bool) (es : List Entry) (cur : KSet)
+    (hc : s.wl[p]? = some cur) :
+    (incoming s p full es).waiting =
+      (incomingMid s p (processWantlist cur full es).1 (processWantlist cur full es).2.1
+        (processWantlist cur full es).2.2).waiting := by
+  rw [incoming_eq s p full es cur hc]
+
 theorem inv_incoming (s : State) (p : Nat) (full : Bool) (es : List Entry) (h : Inv s) :
     Inv (incoming s p full es) := by
   cases hc : s.wl[p]? with
@@ -366,7 +377,7 @@ theorem inv_incoming (s : State) (p : Nat) (full : Bool) (es : List Entry) (h : 
     have hw : ∀ k, wlist (incoming s p full es) k = wlist (incomingMid s p new added removed) k := by
       intro k; rw [wlist_incoming s p full es cur hc, hnew, hadd, hrem]
     have hwait : (incoming s p full es).waiting = (incomingMid s p new added removed).waiting := by
-      rw [incoming_eq s p full es cur hc, hnew, hadd, hrem]
+      rw [incoming_waiting s p full es cur hc, hnew, hadd, hrem]
     have hevq : (incoming s p full es).evq = s.evq := by
       rw [incoming_eq s p full es cur hc]
       exact (incomingMid_fields _ _ _ _ _).2.1
